@@ -165,9 +165,13 @@ impl CompiledProgram {
         let simplicity_redeem = named::finalize_unpruned(&simplicity_witness);
         let simplicity_redeem = match env {
             Some(env) => simplicity_redeem.and_then(|unpruned| {
-                unpruned
+                let pruned = unpruned
                     .prune(env)
-                    .map_err(simplicity::Error::Execution)
+                    .map_err(simplicity::Error::Execution)?;
+                // Pruning hides branches, so parts of a witness that only the hidden branches
+                // inspected are no longer constrained. Infer the types of the pruned program
+                // again (like a decoder does) and shrink the witness values accordingly.
+                named::finalize_unpruned(&pruned.to_construct_node())
             }),
             None => simplicity_redeem,
         };
